@@ -68,7 +68,12 @@ fn tokenize(s: &str) -> Vec<(usize, usize, TK)> {
     v
 }
 
-const REPLACEMENTS: [&str; 14] = ["END", "MACRO", "LAYER", "PIN", ";", "1.5", "-3", "\"unterminated", "RECT", "LIBRARY", "é", "1é", "-é", ".日"];
+const REPLACEMENTS: [&str; 30] = [
+    "END", "MACRO", "LAYER", "PIN", ";", "1.5", "-3", "\"unterminated", "RECT", "LIBRARY", "é", "1é", "-é", ".日",
+    // numeric extremes: decimal / integer / float limits and odd spellings
+    "79228162514264337593543950335", "-79228162514264337593543950335", "79228162514264337593543950336", "99999999999999999999999999999999999999", "0.0000000000000000000000000001", "0.00000000000000000000000000000000001",
+    "7922816251426433759354395033.5", "4294967296", "-2147483649", "18446744073709551616", "1e308", "1e-400", "-0", "-", ".", "-.5",
+];
 const NONASCII: [&str; 6] = ["é", "日本", "😀", "e\u{301}", "ß", "\u{a0}"];
 
 fn token_faults(text: &str, toks: &[(usize, usize, TK)], i: usize) -> Vec<(String, String)> {
